@@ -627,9 +627,14 @@ def run_fault(ctx, histories, steps, stride):
     """Fault enumeration: the k-th backend call fails, for every sampled k; TLC judges the runs"""
     trace = os.path.join(ctx.work, "fault.ndjson")
     scripts = os.path.join(ctx.work, "fault-scripts.ndjson")
+    journal = os.path.join(ctx.work, "fault.journal")
     cmd = [bin_path("fault"), "--seed", str(ctx.seed), "--histories", str(histories), "--steps", str(steps), "--stride", str(stride),
-           "--out", trace, "--scripts-out", scripts]
-    p = sh(cmd, timeout=7200)
+           "--out", trace, "--scripts-out", scripts, "--journal", journal]
+    p = sh(cmd, timeout=7200, check=False)
+    if p.returncode in (-6, 134, -11, 139):
+        raise fault_abort_violation(ctx, journal, p.returncode)
+    if p.returncode != 0:
+        raise ToolError(f"command failed ({p.returncode}): {cmd}\n{p.stdout[-2000:]}\n{p.stderr[-2000:]}")
     stats = json.loads(p.stdout.strip().splitlines()[-1])
     log(f"fault: {stats['runs']} faulty runs over {stats['histories']} histories, {stats['errors_returned']} storage errors returned, "
         f"{stats['crash_probes']} crash probes, {stats['panics']} panics, {p.wall:.1f}s")
@@ -665,9 +670,45 @@ def run_fault(ctx, histories, steps, stride):
     raise Violation(ctx.prop, save_replay(ctx.prop, payload), what, sig)
 
 
+def fault_abort_violation(ctx, journal, rc):
+    """The fault driver was killed inside the code under test: the unfinished fault points of the journal are re-run one
+    by one in their own process; the first that kills it again is the violation"""
+    hist, started, done = {}, {}, set()
+    for l in open(journal):
+        j = json.loads(l)
+        if "steps" in j:
+            hist[j["history"]] = j
+        elif "start" in j:
+            started[(j["history"], j["start"])] = j
+        elif "done" in j:
+            done.add((j["history"], j["done"]))
+    for key, st in started.items():
+        if key in done:
+            continue
+        h = hist[st["history"]]
+        payload = {"property": ctx.prop, "kind": "fault", "cfg": h["cfg"], "steps": h["steps"], "calls0": h["calls0"], "k": st["k"], "mode": st["mode"],
+                   "expect": "abort"}
+        path = os.path.join(ctx.work, "fault-candidate.json")
+        json.dump(payload, open(path, "w"))
+        p = sh([bin_path("fault"), "--replay", path, "--out", os.path.join(ctx.work, "fault-candidate.ndjson")], timeout=1200, check=False)
+        if p.returncode in (-6, 134, -11, 139):
+            tail = [l for l in p.stderr.splitlines() if "panicked" in l or "non-unwinding" in l][-3:]
+            what = (f"with backend call {st['k']} failing ({st['mode']}) in history {st['history']} the process aborts inside redb "
+                    f"(status {p.returncode}): {' | '.join(tail)[:400]}")
+            sig = "fault-abort:" + hashlib.sha256(json.dumps([h["cfg"], h["steps"], st["k"], st["mode"]], sort_keys=True).encode()).hexdigest()[:16]
+            payload.update({"what": what, "signature": sig})
+            return Violation(ctx.prop, save_replay(ctx.prop, payload), what, sig)
+    return ToolError(f"fault driver died with status {rc} but no unfinished fault point reproduces it")
+
+
 def replay_fault(ctx, replay_path):
     trace = os.path.join(ctx.work, "replay-fault.ndjson")
-    sh([bin_path("fault"), "--replay", replay_path, "--out", trace], timeout=1200)
+    p = sh([bin_path("fault"), "--replay", replay_path, "--out", trace], timeout=1200, check=False)
+    if p.returncode in (-6, 134, -11, 139):
+        log("replay still kills the process")
+        return True
+    if p.returncode != 0:
+        raise ToolError(f"replay failed to run: {p.stderr[-1000:]}")
     ok, info = tlc_trace(ctx, "KvTrace", trace)
     return not ok
 
@@ -1251,6 +1292,48 @@ def check_C18(ctx):
                      "distinct_nontrivial = enumerated sessions")
 
 
+def check_C16(ctx):
+    build()
+    tlc_check(ctx, "Shared", tiered(ctx, "MC_Shared.cfg", "MC_Shared_large.cfg"), workers=8, timeout=1800)
+    tlc_expect_violation(ctx, "Shared", "MC_Shared_badsp.cfg", "TrackingOk", workers=2)
+    tlc_expect_violation(ctx, "Shared", "MC_Shared_badalloc.cfg", "NoSharedPage", workers=2)
+    run_kv_walk(ctx, "shared", tiered(ctx, 10, 120), tiered(ctx, 500, 1200), page_sizes="512,1024,4096", caches="1048576,0")
+    run_kv_walk(ctx, "shared", tiered(ctx, 3, 30), tiered(ctx, 500, 1200), page_sizes="512", tag="shared-regions", extra=["--region-size", "65536"], nkeys=200)
+    par = {"sections": 0, "held_sp": 0, "held_open": 0, "infeasible": 0, "savepoints_ok": 0, "savepoints_refused": 0, "restores": 0}
+    for tag in ("shared", "shared-regions"):
+        for l in open(os.path.join(ctx.work, f"walk-{tag}.ndjson")):
+            if '"par"' in l and '"note"' in l:
+                e = json.loads(l)
+                par["sections"] += 1
+                par["held_sp"] += e["hold"] == "sp" and e["held"]
+                par["held_open"] += e["hold"] == "open" and e["held"]
+                par["infeasible"] += not e["feasible"]
+            elif '"e":"spe"' in l:
+                par["savepoints_ok" if '"ok"' in l else "savepoints_refused"] += 1
+            elif '"e":"spreste"' in l:
+                par["restores"] += 1
+    ctx.notes["parallel_sections"] = par
+    ctx.cov["distinct_nontrivial"] += par["sections"]
+    if par["sections"] < 100 or par["held_sp"] < 20 or par["savepoints_ok"] < 20 or par["restores"] < 10:
+        raise ToolError(f"vacuity: too few multi-threaded sections / forced schedules: {par}")
+    ctx.assumptions += ["operations on DIFFERENT tables of one transaction commute in Kv.tla, so a trace that lists them in the order of their end "
+                        "stamps is a linearization; only savepoint calls are order-sensitive (before / after the transaction turns dirty) and are "
+                        "placed as explained in harness/src/exec.rs (\"par\")",
+                        "interleavings inside the page allocator and the cache are exercised by real threads, not controlled; the savepoint / "
+                        "first-open race is forced through two pause points"]
+    return dict(level="model_checking", exhaustive=False,
+                rule="design: Shared.tla - workers opening their table (set_dirty), allocating from the shared allocator, merging their freed "
+                     "pages, while another thread creates and drops savepoints; every interleaving of the critical sections of 2 (thorough 3) "
+                     "workers: NoSharedPage, Accounting (every page free / owned once / freed once), TrackingOk (a live savepoint implies "
+                     "allocation tracking), Eligibility; the unlocked-savepoint and unlocked-allocation variants are caught. code: random "
+                     "histories in which 70% of the write transactions start with a multi-threaded section (2-4 threads each opening and "
+                     "mutating its own table or multimap, 1-60 operations, a further thread making/dropping ephemeral savepoints), 30% of them "
+                     "with a forced schedule (savepoint call held after its dirty check while the others open; first open held inside "
+                     "set_dirty while the savepoint thread calls); results of every call, later contents, restore of the savepoints made there "
+                     "(same transaction and later ones), commit/abort, and the page accounting after every transaction (no page owned twice, "
+                     "nothing leaked, allocation records) are judged by TLC (Kv.tla + PagerInv.tla). distinct_nontrivial = multi-threaded sections")
+
+
 def check_C11(ctx):
     build()
     st = run_crash(ctx, tiered(ctx, 10, 100), tiered(ctx, 140, 300), extra=["--second-every", str(tiered(ctx, 31, 7))])
@@ -1327,6 +1410,7 @@ PROPS = {
     "C04": check_C04,
     "C09": check_C09,
     "C10": check_C10,
+    "C16": check_C16,
     "C18": check_C18,
     "C17": check_C17,
 }
